@@ -375,14 +375,14 @@ def adt_field(adt, v, i):
     return str(i)
 
 
-def rule_env_balance(ck, facts):
+def rule_env_balance(ck, facts, scopes=("::compiler::typing", "::compiler::mirgen")):
     """scopes of the type checker's environment are opened and closed in the same function body, on every path"""
     R = "C04.env-balance"
-    ck.rule(R, "in every function body (closures count separately) of the type checker that opens or closes a scope of an environment (`extend` / `to_outer` on an Environment), the calls are balanced on every path to a return: the depth never goes below its value at entry and is back to it at every return. An error path that closes a scope it has not opened removes the enclosing scope — at top level the only one — and the next binding panics in Environment::add_bind")
+    ck.rule(R, "in every function body (closures count separately) of the type checker and of the MIR generator that opens or closes a scope of an environment (`extend` / `to_outer` on an Environment), the calls are balanced on every path to a return: the depth never goes below its value at entry and is back to it at every return. An error path that closes a scope it has not opened removes the enclosing scope — at top level the only one — and the next binding panics in Environment::add_bind")
     lang = facts.crate(roles.LANG)
     n = 0
     for f in lang.fns:
-        if "::compiler::typing" not in f.path or f.kind == "promoted" or "::test" in f.path:
+        if not any(sc in f.path for sc in scopes) or f.kind == "promoted" or "::test" in f.path:
             continue
         marks = {}
         for b, t in f.calls():
